@@ -407,9 +407,6 @@ def finding_key(a, o, w, stage, ax):
     key0 = "C02/%s/%s" % (ctor_name(a), pat_name(a))
     has_axis = a["act"] == "ut" and a.get("data") is not None
     pat = pat_name(a)
-    if has_axis:
-        if pat in ("nothing", "length", "duration") and stage in ("interval", "rate") and w["dt"] >= BIG_INTERVAL:
-            return "C02/rate-roundtrip/interval>=2^50ps"
     if a.get("rate_from_ps") is not None and stage in ("interval", "rate") and a["rate_from_ps"] >= BIG_INTERVAL:
         return "C02/rate-roundtrip/interval>=2^50ps"
     if stage == "rate" and ax is not None and ax["dt"] >= BIG_INTERVAL:
